@@ -84,6 +84,13 @@ def base_eval(item, pid):
     except impl.SkipCase as e:
         raise SkipResult(dict(res, tags=['skipped: %s' % e]))
     st0 = steps[0]
+    if case.get('minv', 'min') != 'min':
+        from fractions import Fraction
+        mv = d.params['min_value']
+        rec = Fraction(mv.item() if hasattr(mv, 'item') else mv) * (2 ** case['fb'])
+        if rec != Fraction(case['minv'][0], case['minv'][1]) and not any(op[0] == 'reload' for op in item.get('ops', ())):
+            res['pred'].append('the recorded min_value %r is not the threshold that was given (%s in model units)'
+                               % (mv, Fraction(case['minv'][0], case['minv'][1])))
     res['hooked'] = hooked
     res['hyp'] = hyp_failures(st0.mobs)
     res['nontrivial'] = nontrivial(st0.mobs)
@@ -319,6 +326,18 @@ def accessor_diff(iobs, mobs, res, label=''):
 
 
 def eval_C06(item):
+    if item.get('other_shape'):
+        # another dendrogram of the same dimensionality and size, but another shape, lives in the same process
+        import numpy as np
+        import warnings
+        from astrodendro import Dendrogram
+        with warnings.catch_warnings():
+            warnings.simplefilter('ignore')
+            n_ = int(np.prod(item['other_shape']))
+            other = Dendrogram.compute(((np.arange(n_, dtype=float) * 7) % 11).reshape(item['other_shape']))
+            for s_ in other:
+                s_.indices()
+                s_.get_npix()
     res, d, a, steps = base_eval(item, 'C06')
     ctx = preds.Ctx(item['case'], d)
     for i, st in enumerate(steps):
@@ -348,6 +367,12 @@ def steps_d(steps, i, d_final):
 
 def gen_item_C06(rng, idx, tier, pid):
     item = gen_item(rng, idx, tier, pid)
+    shp = list(item['case']['shape'])
+    if len(set(shp)) > 1 and rng.random() < 0.3:
+        other = list(shp)
+        while other == shp:
+            rng.shuffle(other)
+        item['other_shape'] = other
     if idx % 3 == 0 and rng.random() < 0.5 and item['case']['kind'] not in ('bigint', 'decimal'):
         # accessors of a pruned dendrogram, after accessors were used (and cached) before the prune
         import props_history as ph
